@@ -45,7 +45,7 @@ ASSUMPTIONS = [
     "shorter or reordered list, so timeout scenarios use k >= 2.",
     "'Surfaces as an error' is read as: the call raises. Which of several raising tasks is reported is not "
     "constrained (recorded only). A call with timeout T that has neither returned nor raised after the child "
-    "watchdog (>= 15 x T) is recorded as 'no-error-within-bound'.",
+    "watchdog (no progress for >= 25 x T) is recorded as 'no-error-within-bound'.",
     "'Same content' of a Record is equality of a canonical dump of its whole object graph (every slot of every "
     "reachable object, aliasing included, set members order-normalised) plus a view through its public accessors; "
     "the per-task trace annotation added by the harness's gene finder is removed before dumping.",
@@ -183,7 +183,7 @@ def _surround(core, nb, length, circular):
 
 
 def gen_record_spec(rng, index, flavour, big=False):  # pylint: disable=too-many-branches
-    length = 100 * (rng.randint(200, 500) if big else rng.randint(6, 30))
+    length = 100 * (rng.randint(200, 500) if big else rng.randint(6, 24))
     circular = rng.random() < 0.5
     spec = {"id": f"r{index:03d}", "seed": rng.getrandbits(32), "length": length, "circular": circular,
             "dirt": rng.choice([0, 0, 3, 40]), "index": index + 1, "flavour": flavour}
@@ -203,6 +203,7 @@ def gen_record_spec(rng, index, flavour, big=False):  # pylint: disable=too-many
                 parts = ",".join(f"{s}:{e}" for s, e in cds["parts"])
                 plan.append(f"{cds['tag']}|{cds['strand']}|{parts}|{cds['translation']}")
         spec["gene_plan"] = plan
+        spec["gapless"] = rng.random() < 0.9     # removed gaps shift the end below the planned genes: the finder raises
         spec["misc"] = [[10, 20]] if rng.random() < 0.5 else []
         return spec
     cds = _gen_cds(rng, length, circular, 0.6)
@@ -278,11 +279,16 @@ def gen_plan(ctx, round_index, quick):  # pylint: disable=too-many-locals,too-ma
         main.append({"sid": sid("a"), "kind": "arith", "k": k, "n": n, "pattern": pattern, "args": args,
                      "generator_args": rng.random() < 0.4, "via_config": rng.random() < 0.2})
     # B. record functions: every cell gets one function; the assignment rotates with the round
+    # (quick tier: every second cell, which half alternates with the seed)
+    turn = 0
     for cell, (k, n) in enumerate(GRID):
-        fn = RECORD_FNS[(cell + round_index) % len(RECORD_FNS)]
+        if quick and (cell + ctx.seed) % 2:
+            continue
+        fn = RECORD_FNS[(turn + round_index) % len(RECORD_FNS)]
+        turn += 1
         main.append(gen_record_scenario(rng, sid("r"), fn, k, n, pick_pattern(rng)))
     # C. raising tasks
-    raise_cells = [(k, n) for k in (1, 2, 3, 5, 8, 16) for n in sorted({1, k, 3 * k})]
+    raise_cells = [(k, n) for k in (1, 2, 3, 7, 16) for n in sorted({1, k, 3 * k})]
     if not quick:
         raise_cells = [(k, n) for k, n in GRID if n > 0]
     for k, n in raise_cells:
@@ -329,7 +335,10 @@ def gen_plan(ctx, round_index, quick):  # pylint: disable=too-many-locals,too-ma
         pattern = pick_pattern(rng)
         deaths.append({"sid": sid("d"), "kind": "die", "k": k, "n": n, "victims": victims, "how": how, "timeout": 1,
                        "pattern": pattern, "delays": gen_delays(rng, n, pattern)})
-    hazards.append(deaths)
+    if quick:
+        hazards = [sleepers + deaths]    # one child: the sleeping scenarios report before a death could hang it
+    else:
+        hazards.append(deaths)
     return main, hazards
 
 
@@ -337,38 +346,55 @@ def gen_plan(ctx, round_index, quick):  # pylint: disable=too-many-locals,too-ma
 # running a plan in a child, reading its history
 # --------------------------------------------------------------------------
 
-def run_child(plan, watchdog_s):
-    """ returns (events by sid, in-flight sid or None, status dict) """
-    tmp = tempfile.mkdtemp(prefix="vf-c18-", dir="/tmp")
-    status = {"watchdog_fired": False, "returncode": None, "stderr_tail": ""}
-    try:
-        plan_path = os.path.join(tmp, "plan.json")
-        hist_path = os.path.join(tmp, "history.jsonl")
-        err_path = os.path.join(tmp, "stderr.txt")
+class Child:
+    """ one recording child process: started at construction, collected by finish() """
+    def __init__(self, plan, watchdog_s, stall_s):
+        self.plan, self.watchdog_s, self.stall_s = plan, watchdog_s, stall_s
+        self.tmp = tempfile.mkdtemp(prefix="vf-c18-", dir="/tmp")
+        self.hist_path = os.path.join(self.tmp, "history.jsonl")
+        self.err_path = os.path.join(self.tmp, "stderr.txt")
+        plan_path = os.path.join(self.tmp, "plan.json")
         with open(plan_path, "w", encoding="utf-8") as handle:
             json.dump(plan, handle)
-        cmd = [sys.executable, "-X", "faulthandler", "-m", "vf.c18_workers", plan_path, hist_path,
-               os.path.join(tmp, "scratch")]
-        started = time.monotonic()
-        with open(err_path, "w", encoding="utf-8") as err:
-            # own process group: parallel_execute's setpgid(0, 0) becomes a no-op and leftovers can be reaped
-            proc = subprocess.Popen(cmd, stdout=subprocess.DEVNULL, stderr=err, process_group=0)  # pylint: disable=consider-using-with
+        with open(self.hist_path, "w", encoding="utf-8"):
+            pass
+        cmd = [sys.executable, "-X", "faulthandler", "-m", "vf.c18_workers", plan_path, self.hist_path,
+               os.path.join(self.tmp, "scratch")]
+        self.started = time.monotonic()
+        self.err = open(self.err_path, "w", encoding="utf-8")  # pylint: disable=consider-using-with
+        # own process group: parallel_execute's setpgid(0, 0) becomes a no-op and leftovers can be reaped
+        self.proc = subprocess.Popen(cmd, stdout=subprocess.DEVNULL, stderr=self.err, process_group=0)  # pylint: disable=consider-using-with
+
+    def finish(self):
+        """ returns (end events by sid, in-flight sid or None, status dict).
+            Watchdog: the whole child may take watchdog_s; no scenario may take longer than stall_s
+            (the history file is written at every begin/end). Time is a watchdog only. """
+        status = {"watchdog_fired": False, "returncode": None, "stderr_tail": "", "waited_s": 0}
+        try:
+            while True:
+                try:
+                    self.proc.wait(timeout=0.2)
+                    break
+                except subprocess.TimeoutExpired:
+                    pass
+                now = time.monotonic()
+                quiet = time.time() - os.path.getmtime(self.hist_path)
+                if now - self.started > self.watchdog_s or quiet > self.stall_s:
+                    status["watchdog_fired"] = True
+                    status["waited_s"] = round(min(quiet, now - self.started), 1)
+                    break
             try:
-                proc.wait(timeout=watchdog_s)
-            except subprocess.TimeoutExpired:
-                status["watchdog_fired"] = True
-            try:
-                os.killpg(proc.pid, signal.SIGKILL)
+                os.killpg(self.proc.pid, signal.SIGKILL)
             except (ProcessLookupError, PermissionError):
                 pass
-            proc.wait()
-        status["returncode"] = proc.returncode
-        status["wall"] = time.monotonic() - started
-        with open(err_path, encoding="utf-8", errors="replace") as handle:
-            status["stderr_tail"] = handle.read()[-600:]
-        begun, ended, bye = [], {}, False
-        if os.path.exists(hist_path):
-            with open(hist_path, encoding="utf-8") as handle:
+            self.proc.wait()
+            self.err.close()
+            status["returncode"] = self.proc.returncode
+            status["wall"] = time.monotonic() - self.started
+            with open(self.err_path, encoding="utf-8", errors="replace") as handle:
+                status["stderr_tail"] = handle.read()[-600:]
+            begun, ended, bye = [], {}, False
+            with open(self.hist_path, encoding="utf-8") as handle:
                 for line in handle:
                     try:
                         event = json.loads(line)
@@ -382,11 +408,13 @@ def run_child(plan, watchdog_s):
                         bye = True
                     elif event["ev"] == "hello":
                         status["child_pid"] = event["pid"]
-        in_flight = [s for s in begun if s not in ended]
-        status["bye"] = bye
-        return ended, (in_flight[0] if in_flight else None), status
-    finally:
-        shutil.rmtree(tmp, ignore_errors=True)
+            in_flight = [sid for sid in begun if sid not in ended]
+            status["bye"] = bye
+            return ended, (in_flight[0] if in_flight else None), status
+        finally:
+            if not self.err.closed:
+                self.err.close()
+            shutil.rmtree(self.tmp, ignore_errors=True)
 
 
 # --------------------------------------------------------------------------
@@ -654,7 +682,7 @@ def check_execute(ctx, book, sc, ev):
     return not identity
 
 
-def check_history(ctx, book, plan, ended, in_flight, status, watchdog_s):
+def check_history(ctx, book, plan, ended, in_flight, status):
     """ decide every scenario of a plan from the recorded history; returns True when the child was clean """
     clean = True
     for sc in plan:
@@ -662,7 +690,7 @@ def check_history(ctx, book, plan, ended, in_flight, status, watchdog_s):
         if ev is None:
             if sc["sid"] == in_flight and status["watchdog_fired"] and sc.get("timeout") is not None:
                 ctx.count("op:" + sc["kind"])
-                ctx.violate("no-error-within-bound", base_facts(sc, how=sc.get("how"), waited_s=watchdog_s), sc)
+                ctx.violate("no-error-within-bound", base_facts(sc, how=sc.get("how"), waited_s=status["waited_s"]), sc)
                 ctx.case((sc["kind"], sc["k"], sc["n"], "hang"), nontrivial=True)
             else:
                 clean = False
@@ -703,7 +731,7 @@ def check_history(ctx, book, plan, ended, in_flight, status, watchdog_s):
     if status["watchdog_fired"]:
         ctx.count("child_watchdog_fired")
         if len(ctx.notes) < 5:
-            ctx.notes.append(f"child watchdog ({watchdog_s}s) fired while scenario {in_flight} was in flight")
+            ctx.notes.append(f"child watchdog fired after {status['waited_s']}s while scenario {in_flight} was in flight")
     elif not status.get("bye"):
         clean = False
         ctx.count("child_died")
@@ -712,13 +740,19 @@ def check_history(ctx, book, plan, ended, in_flight, status, watchdog_s):
     return clean
 
 
+HAZARD_STALL_S = 25     # >= 15 x the timeouts used (1 s)
+MAIN_STALL_S = 90
+
+
 def run_round(ctx, book, round_index, quick):
     main, hazards = gen_plan(ctx, round_index, quick)
+    # the hazard children mostly sleep: they run next to the main child
+    children = [Child(plan, 30 + HAZARD_STALL_S * len(plan), HAZARD_STALL_S) for plan in hazards]
+    children.insert(0, Child(main, 200 if quick else 400, MAIN_STALL_S))
     clean = True
-    jobs = [(main, 150 if quick else 300)] + [(plan, 15 + 15 * len(plan)) for plan in hazards]
-    for plan, watchdog_s in jobs:
-        ended, in_flight, status = run_child(plan, watchdog_s)
-        clean = check_history(ctx, book, plan, ended, in_flight, status, watchdog_s) and clean
+    for child in children:
+        ended, in_flight, status = child.finish()
+        clean = check_history(ctx, book, child.plan, ended, in_flight, status) and clean
         ctx.count("children_run")
     return clean
 
@@ -756,8 +790,7 @@ def run(ctx):
 
 def replay(ctx, case):
     book = Book()
-    plan = [case]
-    watchdog_s = 60
-    ended, in_flight, status = run_child(plan, watchdog_s)
-    check_history(ctx, book, plan, ended, in_flight, status, watchdog_s)
+    child = Child([case], 120, 60)
+    ended, in_flight, status = child.finish()
+    check_history(ctx, book, child.plan, ended, in_flight, status)
     publish(ctx, book)
